@@ -440,6 +440,8 @@ pub struct Names {
     pub tags: BTreeMap<u32, String>,
     pub unknown_subsections: Vec<u8>,
     pub subsection_order: Vec<u8>,
+    /// (subsection id, index) pairs that occur more than once in one name map
+    pub duplicates: Vec<(u8, u32)>,
     pub error: Option<String>,
 }
 
@@ -844,10 +846,14 @@ pub fn decode(bytes: &[u8]) -> Result<WModule, String> {
 }
 
 fn decode_names(r: wp::NameSectionReader<'_>, n: &mut Names) -> Result<(), String> {
-    fn nm(m: wp::NameMap<'_>, out: &mut BTreeMap<u32, String>) -> Result<(), String> {
+    fn nm(m: wp::NameMap<'_>, out: &mut BTreeMap<u32, String>, id: u8, dups: &mut Vec<(u8, u32)>) -> Result<(), String> {
+        let mut last: Option<u32> = None;
         for x in m {
             let x = x.map_err(|e| e.to_string())?;
-            out.insert(x.index, x.name.to_string());
+            if out.insert(x.index, x.name.to_string()).is_some() || last.map(|l| x.index <= l).unwrap_or(false) {
+                dups.push((id, x.index));
+            }
+            last = Some(x.index);
         }
         Ok(())
     }
@@ -870,7 +876,7 @@ fn decode_names(r: wp::NameSectionReader<'_>, n: &mut Names) -> Result<(), Strin
             }
             wp::Name::Function(m) => {
                 n.subsection_order.push(1);
-                nm(m, &mut n.funcs)?
+                { let mut d = vec![]; let r = nm(m, &mut n.funcs, 1, &mut d); n.duplicates.extend(d); r? }
             }
             wp::Name::Local(m) => {
                 n.subsection_order.push(2);
@@ -882,27 +888,27 @@ fn decode_names(r: wp::NameSectionReader<'_>, n: &mut Names) -> Result<(), Strin
             }
             wp::Name::Type(m) => {
                 n.subsection_order.push(4);
-                nm(m, &mut n.types)?
+                { let mut d = vec![]; let r = nm(m, &mut n.types, 4, &mut d); n.duplicates.extend(d); r? }
             }
             wp::Name::Table(m) => {
                 n.subsection_order.push(5);
-                nm(m, &mut n.tables)?
+                { let mut d = vec![]; let r = nm(m, &mut n.tables, 5, &mut d); n.duplicates.extend(d); r? }
             }
             wp::Name::Memory(m) => {
                 n.subsection_order.push(6);
-                nm(m, &mut n.memories)?
+                { let mut d = vec![]; let r = nm(m, &mut n.memories, 6, &mut d); n.duplicates.extend(d); r? }
             }
             wp::Name::Global(m) => {
                 n.subsection_order.push(7);
-                nm(m, &mut n.globals)?
+                { let mut d = vec![]; let r = nm(m, &mut n.globals, 7, &mut d); n.duplicates.extend(d); r? }
             }
             wp::Name::Element(m) => {
                 n.subsection_order.push(8);
-                nm(m, &mut n.elems)?
+                { let mut d = vec![]; let r = nm(m, &mut n.elems, 8, &mut d); n.duplicates.extend(d); r? }
             }
             wp::Name::Data(m) => {
                 n.subsection_order.push(9);
-                nm(m, &mut n.datas)?
+                { let mut d = vec![]; let r = nm(m, &mut n.datas, 9, &mut d); n.duplicates.extend(d); r? }
             }
             wp::Name::Field(m) => {
                 n.subsection_order.push(10);
@@ -910,7 +916,7 @@ fn decode_names(r: wp::NameSectionReader<'_>, n: &mut Names) -> Result<(), Strin
             }
             wp::Name::Tag(m) => {
                 n.subsection_order.push(11);
-                nm(m, &mut n.tags)?
+                { let mut d = vec![]; let r = nm(m, &mut n.tags, 11, &mut d); n.duplicates.extend(d); r? }
             }
             wp::Name::Unknown { ty, .. } => {
                 n.subsection_order.push(ty);
